@@ -5,6 +5,7 @@ import (
 	"reflect"
 	"strings"
 	"sync/atomic"
+	"unicode/utf8"
 
 	"github.com/hashicorp/hcl/v2"
 	"github.com/hashicorp/hcl/v2/hclsyntax"
@@ -55,7 +56,7 @@ func hasComment(b []byte) bool {
 // syntax the field is named after. ok=true when it is or when the field has
 // no unambiguous meaning; otherwise want describes what was expected.
 func fieldMeaning(node hclsyntax.Node, field string, fr *frame, text []byte) (ok bool, want string) {
-	if hasComment(text) {
+	if hasComment(text) || !utf8.Valid(text) {
 		return true, ""
 	}
 	t := string(text)
@@ -127,7 +128,9 @@ func fieldMeaning(node hclsyntax.Node, field string, fr *frame, text []byte) (ok
 
 // stepMeaning: a traversal step's range slices to the step.
 func stepMeaning(step hcl.Traverser, text []byte) (ok bool, want string) {
-	if hasComment(text) {
+	if hasComment(text) || !utf8.Valid(text) {
+		// ill-formed UTF-8 is outside the specified input domain: what the scanner makes of such bytes
+		// (it may take them, and a following blank, into an identifier) is not judged
 		return true, ""
 	}
 	t, sw := string(text), stripWS(text)
